@@ -42,6 +42,14 @@ func runC04(r *R) {
 	}
 	sp.Shots = genShots(w, interval)
 	sp.Stalls = w.Draw(5) == 0
+	// a caller's cancel landing on a token's scheduled instant, or somewhere in the run: a cancelled run shoots or drops
+	// the token it holds, it never reports it as discarded unless it was 2 s late
+	if len(sp.RPS.Offs) > 0 && w.Draw(4) == 0 {
+		sp.CancelAt = sp.RPS.Offs[w.Draw(len(sp.RPS.Offs))]
+		if w.Draw(3) == 0 {
+			sp.CancelAt += time.Duration(w.Draw(3000)) * time.Millisecond
+		}
+	}
 	r.Sample(sp.describe())
 	res := runEngine(r, sp, 48*time.Hour)
 	if r.Failed() || res.Log == nil {
@@ -61,8 +69,15 @@ func checkTiming(r *R, sp engSpec, res *engResult) {
 	var maxShot time.Duration
 	shotIn := map[int]time.Duration{}
 	late := 0
+	cancelled := false
 	for _, e := range res.Evs {
 		switch e.Kind {
+		case "cancel":
+			// the property quantifies over profiles and response-time histories, not over cancels: after the caller's
+			// cancel the instance may fire or drop the token it holds (IsSlowDown answers false on a done context by
+			// design), so the must-discard clause is judged only up to the cancel. The never-discard-early clause
+			// stays in force throughout.
+			cancelled = true
 		case "left", "next":
 			if e.Src != "rps" {
 				continue
@@ -90,7 +105,7 @@ func checkTiming(r *R, sp engSpec, res *engResult) {
 			if e.T < h.tok {
 				r.Fail("early-shot", "instance %d fired at %v, before the scheduled time %v of its token (profile %s)", e.Inst, e.T, h.tok, sp.RPS.Desc)
 			}
-			if sp.Discard && h.pickup-h.tok >= maxOverdue {
+			if sp.Discard && !cancelled && h.pickup-h.tok >= maxOverdue {
 				r.Fail("late-token-fired/"+lateClass(sp), "instance %d picked its token (scheduled %v) up at %v, %v late (>= 2s), and fired it instead of discarding (profile %s, shots %s)",
 					e.Inst, h.tok, h.pickup, h.pickup-h.tok, sp.RPS.Desc, sp.Shots)
 			}
